@@ -267,9 +267,9 @@ ExecHint(x, i) ==
   LET s == x.s  trapNS == s.cfg.virt /\ (~IsSecure(s)) /\ Mode(s) # HYP IN
   CASE i.h = "NOP" -> x
     [] i.h = "WFE" -> IF s.ev.evreg = 1 THEN [x EXCEPT !.s.ev.evreg = 0]
-                      ELSE IF trapNS /\ Bit(s.sys.HCR, 14) = 1 THEN NotImpl(x, "unmodelled:hyp-trap-wfe")
+                      ELSE IF trapNS /\ Bit(s.sys.HCR, 14) = 1 THEN Raise(x, "hyptrap")          \* HCR.TWE
                       ELSE [x EXCEPT !.s.ev.wfe = 1]
-    [] i.h = "WFI" -> IF trapNS /\ Bit(s.sys.HCR, 13) = 1 THEN NotImpl(x, "unmodelled:hyp-trap-wfi")
+    [] i.h = "WFI" -> IF trapNS /\ Bit(s.sys.HCR, 13) = 1 THEN Raise(x, "hyptrap")               \* HCR.TWI
                       ELSE [x EXCEPT !.s.ev.wfi = 1]
     [] i.h = "YIELD" -> NotImpl(x, "hint_yield")
     [] i.h = "SEV" -> NotImpl(x, "send_event")
@@ -342,7 +342,7 @@ ExecSTMuser(x, i) ==
 ExecSMC(x, i) ==
   LET s == x.s IN
   IF s.cfg.sec /\ CurrentModeIsNotUser(s)
-  THEN IF s.cfg.virt /\ (~IsSecure(s)) /\ Bit(s.sys.HCR, 19) = 1 THEN NotImpl(x, "unmodelled:hyp-trap-smc")
+  THEN IF s.cfg.virt /\ (~IsSecure(s)) /\ Mode(s) # HYP /\ Bit(s.sys.HCR, 19) = 1 THEN Raise(x, "hyptrap")   \* HCR.TSC
        ELSE IF Bit(s.sys.SCR, 7) = 1 THEN (IF IsSecure(s) THEN Unpred(x) ELSE Raise(x, "undef"))   \* SCR.SCD
        ELSE Raise(x, "smc")
   ELSE Raise(x, "undef")
